@@ -4,6 +4,8 @@ pub const FRAGMENTS: &[&str] = &[
     "\"\\u{110000}\"", "\"\\u{0}\"", "\"\\x8\"", "\"\\q\"", "\"\\u{41}\"", "'\\u{D800}'..'a'", "{0}", "{3}", "{1,}", "{,2}", "{1,2}", "{2,1}", "{,0}", "{4294967296}", "{1,99999999999}",
     "PUSH", "PUSH(", "PEEK", "PEEK[", "PEEK[1..2]", "PEEK[99999999999..]", "PEEK[..-99999999999]", "PEEK[-1..]", "PUSH_LITERAL(\"a\")", "PUSH_LITERAL(", "#t =", "#", "//", "///", "//!", "/*", "*/", "é",
     "😀", "\r\n", "\n", ",", "-1", "0", "r = {", "ANY", "WHITESPACE",
+    // characters that tools like to treat specially: byte order mark, NUL, line separator
+    "\u{feff}", "\0", "\u{2028}",
 ];
 
 /// Fragments that can occur inside a rule body (used for the deeper body-only enumeration).
